@@ -39,7 +39,9 @@ class C15(PropBase):
             minbr += 1
         br = rng.choice([minbr, minbr, minbr + 1, 2 * minbr, 3 * minbr + 7, 10 * minbr, 100 * minbr])
         params['rate_limit_enable'] = enabled
-        params['rx_flowcontrol_timeout'] = 10000000
+        # N_Bs either far away, or just above the longest gap the schedule can put between a First Frame and the next Flow Control
+        # (one tick, at most 3 windows): a frame parked by the limiter must not use up the flow-control deadline
+        params['rx_flowcontrol_timeout'] = rng.choice([10000000, int(3.5 * w * 1000) + 5])
         params['rate_limit_window_size'] = w
         params['rate_limit_max_bitrate'] = br
         ops = [{'op': 'layer', 'i': 0, 'addr': a, 'params': params}]
